@@ -813,9 +813,12 @@ package k8s
 //@   requires anpIngOK(anp) && realPeer(src) && realDst(dst) && dyntype(dst, *PodPeer)
 //@   modifies *
 //@   ensures [C02] wf: res1 == nil ==> (wfPC(res0) && disjPC(res0))
+//@   ensures [C02] frame: allKept() && (res1 == nil ==> (fresh(res0) && freshSep(res0.AllowedConns) && freshSep(res0.DeniedConns) && freshSep(res0.PassConns)))
+//@   hint loop1.preserve.frame: inv.frame, inv.wf, call2.frame, call2.wf
 //@   ensures [C02] firstwins: res1 == nil ==> anpIngVerdicts(res0, anp, len(anp.Spec.Ingress), src, dst)
 //@   loop 1 cut:
 //@     invariant wf: wfPC(res) && disjPC(res) && anpIngOK(anp)
+//@     invariant frame: allKept() && fresh(res) && freshSep(res.AllowedConns) && freshSep(res.DeniedConns) && freshSep(res.PassConns)
 //@     invariant firstA: anpIngVerdictA(res, anp, rangeindex + 1, src, dst)
 //@     invariant firstD: anpIngVerdictD(res, anp, rangeindex + 1, src, dst)
 //@     invariant firstP: anpIngVerdictP(res, anp, rangeindex + 1, src, dst)
@@ -848,9 +851,12 @@ package k8s
 //@   requires anpEgOK(anp) && realPeer(dst) && realDst(dst) && dyntype(dst, *PodPeer)
 //@   modifies *
 //@   ensures [C02] wf: res1 == nil ==> (wfPC(res0) && disjPC(res0))
+//@   ensures [C02] frame: allKept() && (res1 == nil ==> (fresh(res0) && freshSep(res0.AllowedConns) && freshSep(res0.DeniedConns) && freshSep(res0.PassConns)))
+//@   hint loop1.preserve.frame: inv.frame, inv.wf, call2.frame, call2.wf
 //@   ensures [C02] firstwins: res1 == nil ==> anpEgVerdicts(res0, anp, len(anp.Spec.Egress), dst)
 //@   loop 1 cut:
 //@     invariant wf: wfPC(res) && disjPC(res) && anpEgOK(anp)
+//@     invariant frame: allKept() && fresh(res) && freshSep(res.AllowedConns) && freshSep(res.DeniedConns) && freshSep(res.PassConns)
 //@     invariant firstA: anpEgVerdictA(res, anp, rangeindex + 1, dst)
 //@     invariant firstD: anpEgVerdictD(res, anp, rangeindex + 1, dst)
 //@     invariant firstP: anpEgVerdictP(res, anp, rangeindex + 1, dst)
@@ -927,9 +933,12 @@ package k8s
 //@   requires banpIngOK(banp) && realPeer(src) && realDst(dst) && dyntype(dst, *PodPeer)
 //@   modifies *
 //@   ensures [C02] wf: res1 == nil ==> (wfPC(res0) && disjPC(res0))
+//@   ensures [C02] frame: allKept() && (res1 == nil ==> (fresh(res0) && freshSep(res0.AllowedConns) && freshSep(res0.DeniedConns) && freshSep(res0.PassConns)))
+//@   hint loop1.preserve.frame: inv.frame, inv.wf, call2.frame, call2.wf
 //@   ensures [C02] firstwins: res1 == nil ==> banpIngVerdicts(res0, banp, len(banp.Spec.Ingress), src, dst)
 //@   loop 1 cut:
 //@     invariant wf: wfPC(res) && disjPC(res) && banpIngOK(banp)
+//@     invariant frame: allKept() && fresh(res) && freshSep(res.AllowedConns) && freshSep(res.DeniedConns) && freshSep(res.PassConns)
 //@     invariant firstA: banpIngVerdictA(res, banp, rangeindex + 1, src, dst)
 //@     invariant firstD: banpIngVerdictD(res, banp, rangeindex + 1, src, dst)
 //@     invariant firstP: banpIngVerdictP(res, banp, rangeindex + 1, src, dst)
@@ -962,9 +971,12 @@ package k8s
 //@   requires banpEgOK(banp) && realPeer(dst) && realDst(dst) && dyntype(dst, *PodPeer)
 //@   modifies *
 //@   ensures [C02] wf: res1 == nil ==> (wfPC(res0) && disjPC(res0))
+//@   ensures [C02] frame: allKept() && (res1 == nil ==> (fresh(res0) && freshSep(res0.AllowedConns) && freshSep(res0.DeniedConns) && freshSep(res0.PassConns)))
+//@   hint loop1.preserve.frame: inv.frame, inv.wf, call2.frame, call2.wf
 //@   ensures [C02] firstwins: res1 == nil ==> banpEgVerdicts(res0, banp, len(banp.Spec.Egress), dst)
 //@   loop 1 cut:
 //@     invariant wf: wfPC(res) && disjPC(res) && banpEgOK(banp)
+//@     invariant frame: allKept() && fresh(res) && freshSep(res.AllowedConns) && freshSep(res.DeniedConns) && freshSep(res.PassConns)
 //@     invariant firstA: banpEgVerdictA(res, banp, rangeindex + 1, dst)
 //@     invariant firstD: banpEgVerdictD(res, banp, rangeindex + 1, dst)
 //@     invariant firstP: banpEgVerdictP(res, banp, rangeindex + 1, dst)
